@@ -168,8 +168,23 @@ Proof.
   rewrite Hi'. apply notify_splice_inv; auto; lia.
 Qed.
 
-Lemma raw_drop_many_inv s ps : AllInv (fst (raw_drop_many s ps)).
-Proof. apply notify_inv. Qed.
+Lemma raw_drop_many_inv s ps : AllInv s -> AllInv (fst (raw_drop_many s ps)).
+Proof.
+  intros H. unfold raw_drop_many. destruct (norm_all (zlen (items s)) ps); [apply notify_inv|exact H].
+Qed.
+
+Lemma norm_all_valid n : forall ps, Forall (fun p => 0 <= p < n) ps -> norm_all n ps = Ok ps.
+Proof.
+  induction ps as [|p ps IH]; intros H; [reflexivity|]. inversion H as [|? ? Hp Hps]; subst.
+  cbn [norm_all]. unfold norm_index. replace ((0 <=? p) && (p <? n)) with true by lia.
+  now rewrite IH.
+Qed.
+
+(* with positions inside the list, drop_many is the plain removal *)
+Lemma raw_drop_many_valid s ps :
+  Forall (fun p => 0 <= p < zlen (items s)) ps ->
+  raw_drop_many s ps = (notify (with_items s (remove_positions ps (items s))), OkNone).
+Proof. intros H. unfold raw_drop_many. now rewrite norm_all_valid. Qed.
 
 Lemma raw_setitem_slice_inv s sl values :
   AllInv s -> AllInv (fst (raw_setitem_slice true s sl values)).
@@ -210,7 +225,7 @@ Lemma raw_delitem_inv s i : AllInv s -> AllInv (fst (raw_delitem true s i)).
 Proof.
   intros H. unfold raw_delitem.
   destruct (range_from_index i (zlen (items s))) as [r|]; [|exact H].
-  destruct (r_step r =? 1); [now apply raw_setitem_slice_inv | apply raw_drop_many_inv].
+  destruct (r_step r =? 1); [now apply raw_setitem_slice_inv | now apply raw_drop_many_inv].
 Qed.
 
 Lemma raw_insert_inv s i x : AllInv s -> AllInv (fst (raw_insert true s i x)).
@@ -312,7 +327,7 @@ Qed.
 Lemma v_delitem_inv s v i : AllInv s -> AllInv (fst (v_delitem s v i)).
 Proof.
   intros H. unfold v_delitem.
-  destruct (range_from_index i (zlen (v_idx v))); [apply raw_drop_many_inv | exact H].
+  destruct (range_from_index i (zlen (v_idx v))); [now apply raw_drop_many_inv | exact H].
 Qed.
 
 Lemma v_insert_inv s v i x : AllInv s -> AllInv (fst (v_insert true s v i x)).
@@ -332,6 +347,40 @@ Proof.
   intros Hr; inversion Hr; subst. exact E.
 Qed.
 
+Lemma raw_pop_all_inv : forall fuel s acc, AllInv s -> AllInv (fst (raw_pop_all fuel s acc)).
+Proof.
+  induction fuel as [|f IH]; intros s acc H; cbn [raw_pop_all]; [exact H|].
+  pose proof (raw_pop_inv s (-1) H) as Hp.
+  destruct (raw_pop s (-1)) as [s' [[|y [|z r]]|e]]; cbn [fst] in *; auto.
+Qed.
+
+Lemma raw_reverse_inv s : AllInv s -> AllInv (fst (raw_reverse s)).
+Proof.
+  intros H. unfold raw_reverse. pose proof (raw_pop_all_inv (length (items s)) s [] H) as Hp.
+  destruct (raw_pop_all (length (items s)) s []) as [s' [values|e]]; cbn [fst] in *; [|exact Hp].
+  now apply raw_extend_inv.
+Qed.
+
+Lemma v_pop_each_inv : forall ps s acc, AllInv s -> AllInv (fst (v_pop_each s ps acc)).
+Proof.
+  induction ps as [|p ps IH]; intros s acc H; cbn [v_pop_each]; [exact H|].
+  pose proof (raw_pop_inv s p H) as Hp.
+  destruct (raw_pop s p) as [s' [[|y [|z r]]|e]]; cbn [fst] in *; auto.
+Qed.
+
+Lemma v_insert_each_inv : forall ps s xs, AllInv s -> AllInv (fst (v_insert_each true s ps xs)).
+Proof.
+  induction ps as [|p ps IH]; intros s xs H; cbn [v_insert_each]; [exact H|].
+  destruct xs as [|x xs]; [exact H|]. apply IH. now apply raw_insert_inv.
+Qed.
+
+Lemma v_reverse_inv s v : AllInv s -> AllInv (fst (v_reverse true s v)).
+Proof.
+  intros H. unfold v_reverse. pose proof (v_pop_each_inv (rev (v_idx v)) s [] H) as Hp.
+  destruct (v_pop_each s (rev (v_idx v)) []) as [s' [values|e]]; cbn [fst] in *; [|exact Hp].
+  now apply v_insert_each_inv.
+Qed.
+
 Lemma step_inv s o : AllInv s -> AllInv (fst (step true s o)).
 Proof.
   intros H.
@@ -345,7 +394,7 @@ Proof.
   - apply notify_inv.
   - now apply raw_extend_inv.
   - now apply raw_pop_inv.
-  - apply raw_drop_many_inv.
+  - now apply raw_drop_many_inv.
   - apply notify_inv.
   - constructor.
   - exact H.
@@ -357,12 +406,12 @@ Proof.
   - now apply v_delitem_inv.
   - now apply v_insert_inv.
   - now apply raw_append_inv.
-  - apply raw_drop_many_inv.
+  - now apply raw_drop_many_inv.
   - now apply raw_extend_inv.
   - now apply v_pop_inv.
   - now apply v_remove_inv.
   - unfold v_discard. destruct (v_discard_sel (v_kind v) (items s) (v_idx v) x);
-      [apply raw_drop_many_inv | exact H].
+      [now apply raw_drop_many_inv | exact H].
   - unfold m_getitem. now destruct (m_find (items s) key (v_idx v) 0) as [[[[? ?] ?]|]|].
   - unfold m_contains. now destruct (m_find (items s) key (v_idx v) 0) as [[?|]|].
   - unfold m_delitem. destruct (m_find (items s) key (v_idx v) 0) as [[[[? ?] ?]|]|]; try exact H.
@@ -382,6 +431,14 @@ Proof.
   - unfold m_keys. now destruct (fetch KNode (items s) (v_idx v)).
   - unfold m_values. now destruct (fetch KNode (items s) (v_idx v)).
   - unfold m_items. now destruct (fetch KNode (items s) (v_idx v)).
+  - unfold m_popitem. destruct (v_idx v) as [|p ?]; [exact H|].
+    destruct (list_get_int (items s) p) as [item|]; [|exact H].
+    assert (Hp : AllInv (fst (m_pop raw s v (e_key item) false))).
+    { unfold m_pop. destruct (m_find (items s) (e_key item) (v_idx v) 0) as [[[[i q] cur]|]|]; try exact H.
+      pose proof (v_pop_inv s v i H). destruct (v_pop s v i) as [s' [[|x [|y r]]|e]]; assumption. }
+    destruct (m_pop raw s v (e_key item) false) as [s' [[|x [|y r]]|e]]; exact Hp.
+  - now apply raw_reverse_inv.
+  - now apply v_reverse_inv.
 Qed.
 
 (* ViewInv after every history, whatever views the edits went through *)
@@ -743,7 +800,9 @@ Lemma v_clear_spec s v :
   ViewInv (items s) v ->
   exists s', v_clear s v = (s', OkNone) /\ filtered (v_tags v) (items s') = [].
 Proof.
-  intros HV. eexists. split; [reflexivity|].
-  unfold raw_drop_many, notify, with_items. cbn [fst items].
+  intros HV. unfold v_clear. rewrite raw_drop_many_valid.
+  2:{ rewrite HV. eapply Forall_impl; [|apply positions_bounds]. intros a0 Ha0. cbv beta in *. lia. }
+  eexists. split; [reflexivity|].
+  unfold notify, with_items. cbn [fst items].
   rewrite HV. apply remove_cached_positions. auto.
 Qed.
